@@ -344,6 +344,11 @@ pub fn nowait<R>(kind: NoWait, f: impl FnOnce() -> R) -> R {
     r
 }
 
+/// Is the calling loom thread inside a no-wait region?
+pub fn in_nowait_lock() -> bool {
+    with_thread(|e, i| matches!(e.threads[i].1.nowait, Some((NoWait::Lock, _, _))))
+}
+
 pub(crate) enum Ev {
     Park,
     Yield,
